@@ -37,7 +37,6 @@ def pack(bits):
 
 class C15(Prop):
     id = "C15"
-    claim = False
     modules = ["H3.Props.C15"]
     engines = ["pint", "huff", "pstr"]
     design_ref = "DESIGN.md section 7, C15"
@@ -332,22 +331,20 @@ class C15(Prop):
             if hi - lo > 1:
                 mid = (lo + hi) // 2
                 out += ["huff range %d %d" % (lo, mid), "huff range %d %d" % (mid, hi)]
-            else:
-                pass
             return out
-        h = w[-1]
-        if h != "-" and re.fullmatch(r"[0-9a-f]+", h) and w[1] == "dec" or (w[0] != "pint" and w[1] == "enc"):
-            if h != "-":
-                if len(h) > 2:
-                    out.append(" ".join(w[:-1] + [h[:-2]]))
-                    out.append(" ".join(w[:-1] + [h[2:]]))
-                else:
-                    out.append(" ".join(w[:-1] + ["-"]))
         if w[0] == "pint" and w[1] == "enc":
             v = int(w[4])
             for c in (v // 2, v - 1):
                 if 0 <= c < v:
                     out.append(" ".join(w[:4] + [str(c)]))
+            return out
+        h = w[-1]            # every other case line ends with a hex string
+        if h != "-":
+            if len(h) > 2:
+                out.append(" ".join(w[:-1] + [h[:-2]]))
+                out.append(" ".join(w[:-1] + [h[2:]]))
+            else:
+                out.append(" ".join(w[:-1] + ["-"]))
         return out
 
 
